@@ -195,6 +195,14 @@ impl<T> Signal<T> {
         self.ptr = ptr;
     }
 
+    /// Re-arms a finished async signal so that it can be registered in the
+    /// wait list again, used when a stream reuses its receive future
+    #[inline(always)]
+    #[cfg(feature = "async")]
+    pub(crate) fn reset(&mut self) {
+        self.state.store(LOCKED, Ordering::Relaxed);
+    }
+
     /// Registers the async waker in the Signal
     #[inline(always)]
     #[cfg(feature = "async")]
